@@ -54,4 +54,21 @@ def refChain (H : HashFn) (algo : Nat) : Nat → Bytes → List Link → Option 
       | none => none
     else none
 
+/-- reference calendar root, written position-wise: the hash algorithm of step `i` is that of
+the sibling of the last left link among links `0..i`, or of the input hash if there is none;
+every step hashes left ‖ right ‖ 0xff -/
+def calAlgoAt (inputAlgo : Nat) (links : List CalLink) (i : Nat) : Nat :=
+  match ((links.take (i + 1)).filter (·.isLeft)).getLast? with
+  | some l => l.algo
+  | none => inputAlgo
+
+def refCalendar (H : HashFn) (inputAlgo : Nat) (links : List CalLink) (input : Bytes) : Option Bytes :=
+  (List.range links.length).foldl (fun acc i =>
+    match acc, links[i]? with
+    | some cur, some l =>
+      let a := calAlgoAt inputAlgo links i
+      let sib := UInt8.ofNat l.algo :: l.digest
+      (H a ((if l.isLeft then cur ++ sib else sib ++ cur) ++ [0xff])).map (UInt8.ofNat a :: ·)
+    | _, _ => none) (some input)
+
 end KsiVerif.HashChainSpec
